@@ -87,7 +87,7 @@ def finalize(results, counters, tier, seed):
             inc.append("monitor never saw: " + k)
     miss = [s for s in ("m-partitioned", "m-part-occ-two-level", "m-merger-dynamic", "m-lf-same-rank-different-leaders", "m-multi-rank-intersector", "m-eager", "m-sequencer", "m-leader-follower", "m-two-finger",
                         "m-skip-ahead", "m-three-level", "accel-gamma", "accel-extensor-energy")
-            if counters.get("strata_ok", {}).get(s, 0) == 0]
+            if counters.get("strata_compiled", {}).get(s, 0) == 0]
     if miss:
         inc.append("strata never executed: %r" % miss)
     cov = {"rule": "C11's corpus (generated full specs + 5 accelerator specs), dense inputs so "
